@@ -41,6 +41,7 @@ def _spec(draw):
       'tnoise': draw(st.lists(st.integers(-64, 64), min_size=n_test, max_size=n_test)),
       'rhos': sorted(set(draw(st.lists(st.integers(0, 999), min_size=2, max_size=5)))),
       'reuse': draw(st.booleans()),
+      'big_shift': draw(st.sampled_from([0, 0, 10 ** 5, 10 ** 6, -10 ** 6])),
   }
   return spec
 
@@ -111,6 +112,13 @@ def run(spec):
     if not util.close(I2, I * s, 1e-12):
       viol.append(('C05:unit-scaling', dict(det, k=spec['k'], got=float(I2), want=float(I * s))))
     I3 = impact_of(x + spec['sa'], y + spec['sb'])
+    if spec.get('big_shift'):
+      # a level far above the day-to-day spread (e.g. cumulative counters): still exactly representable, and the
+      # two-pass moments of the reference keep ~1e-10 relative accuracy there
+      I4 = impact_of(x + spec['big_shift'], y + spec['big_shift'])
+      if not util.close(I4, I, 1e-7):
+        viol.append(('C05:level-shift', dict(det, shift=spec['big_shift'], got=float(I4), want=float(I))))
+      cls.append('big-level-shift')
     if reuse:
       m = len(y) // 2 + 2
       if 3 <= m < len(y):
